@@ -178,7 +178,11 @@ def hs_certificate(rng):
     certs = [TlsCertificate(rbytes(rng, rsize(rng, big=rng.random() < 0.1))) for _ in range(rng.choice((1, 1, 2, 3, 6)))]
     if rng.random() < 0.03:
         certs.append(TlsCertificate(rbytes(rng, rng.choice((2 ** 16, 70000)))))   # 24-bit lengths above 64 KiB
-    return TlsHandshakeCertificate(TlsCertificates(certs))
+    chain = TlsCertificates(certs)
+    if rng.random() < 0.3:
+        # the sender replaces the DER of a certificate that is already in the chain (in place), then sends
+        chain[rng.randrange(len(chain))].certificate = rbytes(rng, rsize(rng))
+    return TlsHandshakeCertificate(chain)
 
 
 def hs_server_key_exchange(rng):
@@ -206,7 +210,12 @@ def hs_certificate_request(rng):
     algos = None
     if rng.random() < 0.5:
         algos = rng.sample(list(TlsSignatureAndHashAlgorithm), rng.randrange(1, 6))
-    return TlsHandshakeCertificateRequest(types, names, algos)
+    message = TlsHandshakeCertificateRequest(types, names, algos)
+    if names and rng.random() < 0.3:
+        # a name that is already in the message is extended in place before the message is sent
+        authorities = message.certificate_authorities
+        authorities[rng.randrange(len(authorities))].extend(list(rbytes(rng, rng.randrange(1, 30))))
+    return message
 
 
 def hs_hello_retry_request(rng):
@@ -457,6 +466,23 @@ def make_openvpn_tcp(rng):
     return bytes(OpenVpnPacketWrapperTcp(payload).compose())
 
 
+def make_openvpn_fixed(rng):
+    """An OpenVPN packet of one of the formats whose length follows from its own fields (acknowledgement, hard
+    resets), with 0..8 acknowledged packet ids."""
+    from cryptoparser.tls import openvpn
+    count = rng.choice((0, 1, 1, 2, 3, 4, 5, 8))
+    ids = [rng.getrandbits(32) for _ in range(count)]
+    session, remote = rng.getrandbits(64), rng.getrandbits(64)
+    kind = rng.randrange(3)
+    if kind == 0:
+        packet = openvpn.OpenVpnPacketAckV1(session, remote if ids else None, ids)
+    elif kind == 1:
+        packet = openvpn.OpenVpnPacketHardResetClientV2(session, rng.getrandbits(32))
+    else:
+        packet = openvpn.OpenVpnPacketHardResetServerV2(session, remote if ids else None, ids, rng.getrandbits(32))
+    return bytes(packet.compose())
+
+
 def make_ldap_request(rng):  # pylint: disable=unused-argument
     from cryptoparser.tls.ldap import LDAPExtendedRequestStartTLS
     return bytes(LDAPExtendedRequestStartTLS().compose())
@@ -531,8 +557,10 @@ def make_ssh_banner(rng):
 
 
 class Channel(object):
-    def __init__(self, name, cls_path, framer, make, in_c04=True, spec_sender=False):
+    def __init__(self, name, cls_path, framer, make, in_c04=True, spec_sender=False, single_unit=False):
         self.name = name
+        # single_unit: a datagram format - one unit per delivery, never coalesced into a stream
+        self.single_unit = single_unit
         self.cls_path = cls_path
         self.framer = framer
         self._make = make
@@ -575,6 +603,7 @@ CHANNELS = [
     Channel('mysql', P_ + 'tls.mysql.MySQLRecord', 'mysql', make_mysql),
     Channel('tpkt', P_ + 'tls.rdp.TPKT', 'tpkt', make_tpkt),
     Channel('openvpn_tcp', P_ + 'tls.openvpn.OpenVpnPacketWrapperTcp', 'openvpn_tcp', make_openvpn_tcp),
+    Channel('openvpn_packet', P_ + 'tls.openvpn.OpenVpnPacketVariant', None, make_openvpn_fixed, single_unit=True),
     Channel('ldap_request', P_ + 'tls.ldap.LDAPExtendedRequestStartTLS', 'ldap', make_ldap_request),
     Channel('ldap_response', P_ + 'tls.ldap.LDAPExtendedResponseStartTLS', 'ldap', make_ldap_response),
     Channel('ldap_response_ber_long_lengths', P_ + 'tls.ldap.LDAPExtendedResponseStartTLS', 'ldap',
@@ -584,3 +613,4 @@ CHANNELS = [
     Channel('ssh_banner', P_ + 'ssh.subprotocol.SshProtocolMessage', 'ssh_banner', make_ssh_banner, in_c04=False),
 ]
 CHANNEL_BY_NAME = {channel.name: channel for channel in CHANNELS}
+STREAM_CHANNELS = [channel for channel in CHANNELS if not channel.single_unit]
